@@ -335,6 +335,10 @@ fn generate(rng: &mut Rng) -> ConnScenario {
         script.push(Step::Close { reset: false });
         sc.client.script = Some(script);
     }
+    // an earlier connection of the same process ended abruptly with output still queued
+    if rng.chance(1, 10) {
+        sc.prelude = vec![abrupt_prelude(rng, &sc)];
+    }
     sc
 }
 
@@ -482,8 +486,11 @@ impl Check for C06 {
             }
             _ => return RunReport::default(),
         }
-        let out = run_conn(sc);
+        let out = crate::conn::run_conn_after_prelude(sc);
         let mut rep = base_report(&out);
+        if !sc.prelude.is_empty() {
+            *rep.faults.entry("earlier_connection_ended_abruptly".into()).or_insert(0) += 1;
+        }
         let steps = sc.client.script.clone().unwrap_or_default();
         let mut h = crate::rng::Fnv(rep.trace_hash);
         h.write_str(&brief(&steps));
